@@ -69,6 +69,10 @@ func lemma_trackerAddType(t *defaultImportTracker, o gengotypes.TypeName) { t.Ad
 //@   ensures old(has(t.Imports(), o.Pkg().Path())) ==> t.Imports()[o.Pkg().Path()] == old(t.Imports()[o.Pkg().Path()])
 //@   note *defaultImportTracker satisfies the interface contract iface_ImportTracker_AddType / _LocalNameOf (given its representation invariant)
 
+//@ func Namer.Name
+//@   preserves pkg/gengo/snippet.
+//@   note interface method, ASSUMED for every implementation: producing a name may register an import (state of the namer / its tracker) but stores nothing into a snippet value (for the implementation in /repo, rawNamer.Name, the verified frame is stronger: only the tracker's abstract state changes)
+
 //@ func NewDefaultImportTracker
 //@   props C03 C05
 //@   pure
